@@ -155,6 +155,13 @@ def step (s : IState) (line : String) : IState × String :=
       (s.apply mode (.getQC v h), "qc " ++ toString r.1.1 ++ " " ++ hexOrDash r.1.2.1 ++ " blk " ++
         toString r.1.2.2.hHeight ++ " " ++ hexOrDash r.1.2.2.hash ++ " " ++ toString r.1.2.2.txs.length)
     | _, _ => bad
+  | ["gblocks", vw, pn, pp] =>
+    match parseView vw, pn.toNat?, pp.toNat? with
+    | some v, some pn, some pp =>
+      let r := (getBlocks .none s.cache (s.view v) pn pp).1
+      (s.apply mode (.getBlocks v pn pp), "n " ++ toString r.1.length ++ " total " ++ toString r.2 ++
+        String.join (r.1.map fun b => " | " ++ showBlk b))
+    | _, _, _ => bad
   | ["gtx", vw, hash] =>
     match parseView vw, ofHex hash with
     | some v, some hash => (s, "v " ++ hexOrDash ((s.view v).getTxByHash hash))
